@@ -103,6 +103,16 @@ class VerusResult:
         self.gen = None
 
 
+def repo_edition():
+    """the Rust edition the code under check is compiled with (workspace Cargo.toml): the extracted text is verified under the
+    same edition (temporaries, captures and keywords differ between editions)"""
+    try:
+        m = re.search(r'^\s*edition\s*=\s*"(\d{4})"', open(os.path.join(REPO, "Cargo.toml")).read(), re.M)
+        return m.group(1) if m else "2021"
+    except Exception:
+        return "2021"
+
+
 def run_verus_unit(prop, unit_name, tier, _lost=None, _text=None):
     tmpl = os.path.join(ROOT, "specs", unit_name + ".rs")
     outdir = os.path.join(OUT, prop)
@@ -119,7 +129,7 @@ def run_verus_unit(prop, unit_name, tier, _lost=None, _text=None):
             f.write(_text)
         u.out_lines = _text.split("\n")
     rlimit = "20" if tier == "quick" else "80"
-    cmd = ["verus", unit_path, "--output-json", "--time", "--rlimit", rlimit, "--multiple-errors", "4",
+    cmd = ["verus", "--edition", repo_edition(), unit_path, "--output-json", "--time", "--rlimit", rlimit, "--multiple-errors", "4",
            "--num-threads", "14", "--triggers-mode", "silent"]
     t0 = time.time()
     p = subprocess.run(cmd, stdout=subprocess.PIPE, stderr=subprocess.PIPE, text=True, cwd=outdir)
@@ -220,7 +230,7 @@ def shared_prefix_names(prop, unit_name):
         gen.generate(REPO, tp, up)
     except Exception:
         return set(), incs
-    p = subprocess.run(["verus", up, "--output-json", "--time", "--triggers-mode", "silent", "--num-threads", "14"],
+    p = subprocess.run(["verus", "--edition", repo_edition(), up, "--output-json", "--time", "--triggers-mode", "silent", "--num-threads", "14"],
                        stdout=subprocess.PIPE, stderr=subprocess.PIPE, text=True, cwd=outdir)
     try:
         js = json.loads(p.stdout[p.stdout.index("{"):])
